@@ -9,10 +9,32 @@ open PgVerif PgVerif.Model PgVerif.Proofs
 /-- The arithmetic core, for every container size and ANY placement of HAS_OFF flags (PostgreSQL's
 stride of 32 over the combined key+value entry array is one instance): for children of lengths `lens`
 and arbitrary types, encoded as JEntries that carry the child's length — or, where flagged, the end
-offset of the child —, `entryOffLen` returns for every index the child's start (the sum of the
-lengths before it) and its length.  No bound on the number of entries; the only size hypothesis is
-PostgreSQL's own (the data area is below 2^28 bytes, so that every value fits the 28-bit field). -/
-theorem C06_offsets (lens tys : List Nat) (flags : Nat → Bool) (idx base : Nat) (hidx : idx < lens.length)
+offset of the child —, the single forward pass of `ParseJSONB` (fix 10) accepts the entry array and
+returns exactly the prefix sums `lens[0], lens[0]+lens[1], …` as end offsets; hence the loops of
+parseJSONBArray / parseJSONBObject hand to `decodeJEntry`, for every index, the child's start (the
+sum of the lengths before it) and its length.  No bound on the number of entries; the only size
+hypothesis is PostgreSQL's own (the data area is below 2^28 bytes, so that every value fits the 28-bit
+field). -/
+theorem C06_offsets (lens tys : List Nat) (flags : Nat → Bool)
+    (hsmall : pre lens lens.length < 0x10000000) (hty : ∀ i, tys.getD i 0 < 8) :
+    endsFrom 0 (encE lens tys flags) = some (presFrom lens 0 lens.length) ∧
+    (∀ idx, idx < lens.length → (presFrom lens 0 lens.length).getD idx 0 = pre lens (idx + 1)) ∧
+    (∀ idx, idx < lens.length →
+      spanAt (presFrom lens 0 lens.length) idx = (pre lens idx, (lens.getD idx 0 : Int))) :=
+  ⟨endsFrom_encE lens tys flags hsmall hty,
+   fun idx h => by rw [getD_presFrom lens 0 _ idx h, Nat.zero_add],
+   fun idx h => spanAt_presFrom lens idx h⟩
+
+/-- non-vacuity: 40 children of length 3 with HAS_OFF on every 32nd entry — the forward pass gives the end
+offsets 3, 6, …, 120; entry 33 starts at 99 -/
+example : (endsFrom 0 (encE (List.replicate 40 3) [] (fun i => i % 32 == 0))).map (fun ends => (ends.getD 39 0, spanAt ends 33)) =
+    some (120, (99, 3)) := by
+  rfl
+
+/-- The same for `entryOffLen` / `endOffset` (backward scan to the nearest HAS_OFF entry, then forward
+sum), which ParseJSONB used before fix 10 and which are still in the source: they return the same start
+and length for every index. -/
+theorem C06_offsets_entryOffLen (lens tys : List Nat) (flags : Nat → Bool) (idx base : Nat) (hidx : idx < lens.length)
     (hsmall : pre lens lens.length < 0x10000000) (hty : ∀ i, tys.getD i 0 < 8) :
     entryOffLen (encE lens tys flags) idx base = .ok (base + pre lens idx, (lens.getD idx 0 : Int)) := by
   rw [entryOffLen_ok _ _ _ (by rw [encE_length]; exact hidx)]
@@ -27,19 +49,19 @@ def docOf : DecodeRes → Option Spec.JView
   | .val v => some v.toView
   | .raw _ => none
 
-/-- Round trip.  For every well-formed JSON document — any nesting of objects and arrays, object keys
+/-- Round trip.  For EVERY well-formed JSON document — any nesting of objects and arrays, object keys
 in PostgreSQL's strict (length, bytes) order, strings and keys of any length below 2^28, every
 well-formed numeric, booleans, null; empty objects and arrays at any depth; a container root or a
-scalar root — whose containers stay within the implementation's limit of 10 000 elements / pairs
-(`countsOK`; the limit itself is known finding J10K) and whose encoding is below 2^28 bytes
-(PostgreSQL's own limit for the offsets), `ParseJSONB` applied to PostgreSQL's binary encoding returns
-exactly the document: same nesting, same keys, same values (numbers by their exact value, see C05),
-same order.  Containers of any size up to the limit, so the 32-entry offset stride is crossed any number
-of times in the key half, the value half and in arrays; any amount of alignment padding. -/
-theorem C06_roundtrip (j : Spec.Json) (h : j.wf = true) (hc : countsOK j = true)
+scalar root; containers with any number of elements / pairs (fix 10 removed the implementation's cap
+of 10 000, former finding J10K) — whose encoding is below 2^28 bytes (PostgreSQL's own limit for the
+offsets), `ParseJSONB` applied to PostgreSQL's binary encoding returns exactly the document: same
+nesting, same keys, same values (numbers by their exact value, see C05), same order.  The 32-entry
+offset stride is crossed any number of times in the key half, the value half and in arrays; any amount
+of alignment padding. -/
+theorem C06_roundtrip (j : Spec.Json) (h : j.wf = true)
     (hsize : (Spec.encJsonb j).length < 0x10000000) :
     (parseJSONB (Spec.encJsonb j)).map JV.toView = .ok j.view :=
-  roundtrip_covered j (covered_of_wf j h hc) hsize
+  roundtrip_covered j (covered_of_wf j h) hsize
 
 /-- The same with the weaker hypothesis actually used by the proof: object keys need only be pairwise
 distinct (`covered`), not sorted. -/
@@ -51,10 +73,10 @@ theorem C06_roundtrip_distinct_keys (j : Spec.Json) (hs : covered j = true)
 /-- Through `DecodeType(data, OidJSONB)`: the same document, and never the raw-string fallback — in
 particular `{}`, `[]` (fix 05) and the document `null` (fix 06), which used to come back as strings of
 raw bytes. -/
-theorem C06_decodeType (j : Spec.Json) (h : j.wf = true) (hc : countsOK j = true)
+theorem C06_decodeType (j : Spec.Json) (h : j.wf = true)
     (hsize : (Spec.encJsonb j).length < 0x10000000) :
     (decodeTypeJSONB (Spec.encJsonb j)).map docOf = .ok (some j.view) := by
-  have hr := C06_roundtrip j h hc hsize
+  have hr := C06_roundtrip j h hsize
   by_cases hn : j.view = .null
   · -- the only document whose view is null is `null`
     have : (Spec.encJsonb j) = Spec.encJsonb .null := by
@@ -99,8 +121,8 @@ def sampleDoc : Spec.Json :=
       .arr [.null, .bool true, .arr []], .obj []]), ([0x62, 0x62], .obj [])]
 
 /-- non-vacuity: it satisfies the hypotheses of `C06_roundtrip` -/
-example : sampleDoc.wf = true ∧ countsOK sampleDoc = true ∧ (Spec.encJsonb sampleDoc).length < 0x10000000 := by
+example : sampleDoc.wf = true ∧ (Spec.encJsonb sampleDoc).length < 0x10000000 := by
   have h : (Spec.encJsonb sampleDoc).length = 84 := rfl
-  exact ⟨rfl, rfl, by omega⟩
+  exact ⟨rfl, by omega⟩
 
 end PgVerif.Props.C06
